@@ -3,8 +3,11 @@ use anyhow::Context;
 use crossbeam::channel::bounded;
 use ignore::{DirEntry, WalkBuilder, WalkState};
 use std::{
-    collections::{BTreeMap, HashMap},
-    mem, thread,
+    collections::{BTreeMap, HashMap, HashSet},
+    mem,
+    path::PathBuf,
+    sync::Mutex,
+    thread,
 };
 use typeshare_core::{
     context::{ParseContext, ParseFileContext},
@@ -122,13 +125,27 @@ pub fn parallel_parse(
         Ok(crate_parsed_data)
     });
 
+    // Input directories may overlap (`typeshare . ./src`, or a directory named twice): a
+    // source file is parsed the first time it is reached and skipped afterwards.
+    let visited: Mutex<HashSet<PathBuf>> = Mutex::new(HashSet::new());
+
     walker_builder.build_parallel().run(|| {
         let tx = tx.clone();
+        let visited = &visited;
 
         Box::new(move |result| {
             #[cfg(typeshare_verif)]
             crate::verif_hooks::before_entry(&result);
             let result = result.context("Failed traversing").and_then(|dir_entry| {
+                let path = dir_entry.path();
+                let first_visit = path.is_dir()
+                    || visited
+                        .lock()
+                        .unwrap()
+                        .insert(path.canonicalize().unwrap_or_else(|_| path.to_path_buf()));
+                if !first_visit {
+                    return Ok(None);
+                }
                 parse_dir_entry(parse_context, language_type, &dir_entry)
                     .with_context(|| format!("Parsing failed: {:?}", dir_entry.path()))
             });
